@@ -49,16 +49,18 @@ def run(ctx, rep):
         return
     ini, fin = inits[0], fins[0]
     ax = call_arg_exprs(ini)
-    t = term_of(f, ax[0], cm.view_info)
-    if ax[0].k == "cast" and term_of(f, ax[0].a, cm.view_info) == ("len", subkey):
+    R = cm.blake2b_init_roles(prog, ini)        # which argument is the digest length / key / salt / personal
+    I_OUT, I_KEY, I_SALT, I_PERS = R["outlen"], R["key"], R["salt"], R["personal"]
+    t = term_of(f, ax[I_OUT], cm.view_info)
+    if ax[I_OUT].k == "cast" and term_of(f, ax[I_OUT].a, cm.view_info) == ("len", subkey):
         # `subkey.len() as u8`: the same value as long as the dominating guard keeps it below 256
         lo_, hi_ = bounds(("len", subkey), facts_at(f, ini.bb, edge_facts(f, cm.view_info, interproc=False)))
         if hi_ is not None and hi_ <= 255:
             t = ("len", subkey)
     rep.ob("PROV", "digest length = subkey.len()", t == ("len", subkey),
            "digest-length operand of the BLAKE2b init is %s" % (("the constant %r" % t) if isinstance(t, int) else repr(t)), loc=ini.loc())
-    rep.ob("PROV", "key <- master key", mk in f.backward_slice(operand_locals(ini.args[1])) and
-           sid not in f.backward_slice(operand_locals(ini.args[1])), "key operand depends on the master-key parameter", loc=ini.loc())
+    rep.ob("PROV", "key <- master key", mk in f.backward_slice(operand_locals(ini.args[I_KEY])) and
+           sid not in f.backward_slice(operand_locals(ini.args[I_KEY])), "key operand depends on the master-key parameter", loc=ini.loc())
 
     def buffer_written_from(arg, src_pred, want_prefix):
         ls = list(operand_locals(arg))
@@ -86,13 +88,13 @@ def run(ctx, rep):
                 return True, "buffer `%s` (%s) is filled from the expected source (element-wise)" % (f.local_name(bl), f.locals[bl]["t"])
         return False, "no buffer in the operand's slice is filled from the expected source"
     le = [c for c in f.calls() if c.path.endswith("::to_le_bytes")]
-    ok, why = buffer_written_from(ini.args[2], lambda sb, c: any(x.dest["l"] in sb for x in le) and sid in sb, 8)
+    ok, why = buffer_written_from(ini.args[I_SALT], lambda sb, c: any(x.dest["l"] in sb for x in le) and sid in sb, 8)
     rep.ob("PROV", "salt <- subkey_id.to_le_bytes()", ok and bool(le), why, loc=ini.loc())
-    ok, why = buffer_written_from(ini.args[3], lambda sb, c: ctxp in sb, 8)
+    ok, why = buffer_written_from(ini.args[I_PERS], lambda sb, c: ctxp in sb, 8)
     rep.ob("PROV", "personal <- context", ok, why, loc=ini.loc())
     # each optional operand is passed unconditionally (Some(&buffer)) and depends only on its own source:
     # key <- master key, salt <- subkey id, personal <- context (no cross-gating between them)
-    own = {1: ("key", {mk}), 2: ("salt", {sid}), 3: ("personal", {ctxp})}
+    own = {I_KEY: ("key", {mk}), I_SALT: ("salt", {sid}), I_PERS: ("personal", {ctxp})}
     for i, (nm, allowed) in own.items():
         e = ax[i]
         uncond = e.k == "agg" and e.a == "std::option::Option" and e.b == "Some"
@@ -105,7 +107,7 @@ def run(ctx, rep):
     # a big-endian conversion would reorder the bytes
     from ..expr import INT_BITS
     SIGNED = ("i8", "i16", "i32", "i64", "i128", "isize")
-    for i, nm in ((2, "salt"), (3, "personal")):
+    for i, nm in ((I_SALT, "salt"), (I_PERS, "personal")):
         back = f.backward_slice(operand_locals(ini.args[i]))
         bad = []
         for bb, si, st in f.assigns():
